@@ -2,6 +2,7 @@
 sinks built on it.  Case generation, the property clauses evaluated directly on
 what the *implementation* did, and the check entry points."""
 import itertools
+import re
 import random
 from multiprocessing import Pool
 
@@ -626,6 +627,61 @@ def run_writer_check(prop, tier, seed, faults, design_ref):
             if "R:%s|M:%s" % (inner_res, parts["M"]) != m:
                 qf_dis.append((len(c), c, o, m))
         rep.cov["qf_cases"] = len(qf)
+    # C06/C07: the same histories through a StatsdClient (user-written buffered sink = Mutex<MultiLineWriter<..>>,
+    # send_metric(&Counter::from(text)), StatsdClient::flush): what the client answers must be what the writer answers
+    cw_fail, cw_dis = [], []
+    if prop in ("C06", "C07"):
+        def utf8_ok(c):
+            try:
+                for o in c.split()[3].split(","):
+                    if o.startswith("E"):
+                        unhex(o[1:]).decode("utf-8")
+                return True
+            except UnicodeDecodeError:
+                return False
+        idx = [i for i, c in enumerate(cases) if c.startswith("W ") and utf8_ok(c)]
+        pick = idx[::max(1, len(idx) // (40000 if thorough else 3000))]
+        src = [(cases[i], model[i]) for i in pick]
+        try:
+            if not faults:
+                # "a flush that returns Ok has written everything accepted before" is a statement about failing writes
+                # too: fault histories for the client-level family even where the sink-level families run fault-free
+                fx = [c for c in gen_exhaustive(2, 3, 1, 3, True) + gen_boundary(rng, 20000 if thorough else 1500, True)
+                      if utf8_ok(c)]
+                src += list(zip(fx, common.run_model("mlw", fx)))
+            cimpl = common.run_harness("mlw", ["C" + c for c, _ in src])
+        except common.CheckFailure as e:
+            rep.violation_noinput("correspondence run failed (CW family)", {"error": str(e)})
+            return rep.finish()
+        for (wc, wm), o in zip(src, cimpl):
+            mr, ml = wm.split("|L:")
+            want = "R:" + ",".join("k" if x[:1] == "k" else x for x in mr[2:].split(",")) + "|L:" + ml
+            if o == want:
+                continue
+            ri, rm = o.split("|")[0][2:].split(","), want.split("|")[0][2:].split(",")
+            soft = [j for j, (a, b) in enumerate(zip(ri, rm)) if a == "k" and b != "k"]
+            if soft and o.split("|L:")[1] == want.split("|L:")[1]:
+                cw_fail.append((case_size(wc), "C" + wc, o,
+                                "through the client, call %d (%s) returned Ok although the write it made failed (%s)"
+                                % (soft[0], "flush" if wc.split()[3].split(",")[soft[0]] == "F" else "emit", rm[soft[0]])))
+            else:
+                cw_dis.append((case_size(wc), "C" + wc, o, want))
+        rep.cov["client_level_cases"] = len(src)
+    if prop == "C07":
+        # the real buffered UDP sink over a socket connected to a closed port: the OS refuses every other send
+        # (ECONNREFUSED); every emit and flush must return (Ok or the socket's error), nothing may hang or be duplicated
+        from . import sock as sock_driver
+        urs = sock_driver.ur_cases()
+        try:
+            uimpl = common.run_harness("sock", urs, shards=min(4, len(urs)))
+        except common.CheckFailure as e:
+            rep.violation_noinput("correspondence run failed (refused UDP sends)", {"error": str(e)})
+            return rep.finish()
+        for c, o in zip(urs, uimpl):
+            for pid, msg in sock_driver.judge(c, o):
+                if pid == "C07":
+                    cw_fail.append(((0, len(c), 0), c, o, msg))
+        rep.cov["refused_udp_cases"] = len(urs)
     # property clauses on the implementation's own observations
     with Pool(common.NCPU) as pool:
         verdicts = pool.map(_check_one, [(prop, c, o) for c, o in zip(cases, impl)], chunksize=2000)
@@ -651,6 +707,20 @@ def run_writer_check(prop, tier, seed, faults, design_ref):
         rep.violation_input("%s (%d failing cases; smallest shown)" % (v, len(bad_spy)),
                             {"bin": "mlw", "case": c, "implementation": o, "clause": v})
         bad = bad_spy
+    if cw_fail and not bad:
+        cw_fail.sort()
+        _, c, o, v = cw_fail[0]
+        rep.violation_input("%s (%d failing cases; smallest shown)" % (v, len(cw_fail)),
+                            {"bin": "sock" if c.startswith("UR") else "mlw", "case": c, "implementation": o, "clause": v})
+        bad = cw_fail
+    if cw_dis and not bad:
+        cw_dis.sort()
+        _, c, o, m = cw_dis[0]
+        rep.violation_noinput(
+            "correspondence broken on %d CW cases: a writer history driven through StatsdClient (send_metric / flush) does not "
+            "answer and write like the model" % len(cw_dis),
+            {"correspondence": "Writer.run vs StatsdClient -> user-written buffered sink -> MultiLineWriter",
+             "theorems": rep.cov.get("theorems", []), "first_disagreeing_case": c, "implementation": o, "model": m})
     if qf_fail and not bad:
         qf_fail.sort()
         _, c, o, v = qf_fail[0]
